@@ -21,6 +21,14 @@
 (*             early end -> backoffSet, next() with Range                  *)
 (*   Seek      Resp.Seek (SeekStart): readCur := off, retryCount--, next() *)
 (*   Close     Resp.Close: backoffReset unless done                        *)
+(*   BodyFail  Resp.next, one iteration that ends at `req.BodyFunc()`: a   *)
+(*             body that can be produced only once (scheme/reg             *)
+(*             blobPutUploadFull with a source that is no io.Seeker) fails *)
+(*             with ErrNotRetryable on the second call: dropHost, no wire  *)
+(*             request; after the closure `throttleDone()`, then - when an *)
+(*             earlier attempt of this next() failed - `return err`        *)
+(*   Cancel    caller cancels the context of a logical request (between    *)
+(*             calls); CtxExit: next() returns ctx.Err() at the loop top   *)
 (*   PassRA    environment: time passes until no window is open            *)
 (*   BackoffGet / BackoffSet / BackoffReset / Less: the functions of the   *)
 (*             same name (Less = sortHostsCmp)                             *)
@@ -42,6 +50,11 @@
 (*    FixLeak = FALSE is the code before: the new success overwrote        *)
 (*    throttleDone and the earlier slot was never returned (finding        *)
 (*    C12-4); Blocked is the state where Acquire can never succeed.        *)
+(*    Every exit of next() gives the slot of its attempt back: failure,    *)
+(*    not-retryable abort (RelNR = TRUE, the code; FALSE = the seeded      *)
+(*    change seeded/C17-4: throttleDone() below the abort), context        *)
+(*    cancel (returned before Acquire); only a success keeps it, until     *)
+(*    Close.  SlotsAccounted states that.                                  *)
 (*    No context cancellation, no reqFreq                                  *)
 (*    rate limit, no TLS; auth is reduced to the three reactions of        *)
 (*    HandleResponse (new challenge: immediate retry; stale; unusable:     *)
@@ -66,6 +79,7 @@ CONSTANTS Hosts,      \* host names (strings)
           MaxSeeks,   \* caller budget
           PrioAsc,    \* TRUE: as the code sorts; FALSE: as documented
           Conc,       \* throttle slots per host (config.Host.ReqConcurrent)
+          RelNR,      \* TRUE: as the code (throttleDone() before the ErrNotRetryable abort); FALSE: seeded/C17-4
           FixLeak,    \* TRUE: as the code since eb4e31c (next() returns the slot of the previous attempt first);
                       \* FALSE: the behaviour before that fix (finding C12-4), kept to explain seeded/fixrev-C12-4
           Confs       \* configurations explored (chosen in Init)
@@ -86,7 +100,8 @@ Perms(S) == {s \in [1..Cardinality(S) -> S] : \A i, j \in 1..Cardinality(S) : i 
 DropAt(s, i) == [j \in 1..(Len(s) - 1) |-> IF j < i THEN s[j] ELSE s[j + 1]]
 
 RespZero == [st |-> "new", retry |-> 0, rcur |-> 0, rmax |-> 0, done |-> FALSE, has |-> FALSE,
-             avail |-> 0, short |-> FALSE, mirror |-> Up, hasra |-> FALSE, slot |-> "none"]
+             avail |-> 0, short |-> FALSE, mirror |-> Up, hasra |-> FALSE, slot |-> "none",
+             bodyused |-> FALSE, cx |-> FALSE]
 HostZero == [cur |-> 0, last |-> 0, reset |-> 0, realm |-> FALSE, act |-> 0]
 
 Mut(id) == conf.req[id].meth \in {"PUT", "DELETE"}
@@ -123,7 +138,7 @@ HostSet(id) == IF conf.req[id].nomir THEN {Up} ELSE Hosts
 
 \* ------------------------------------------------------------- events
 EvDo(id)      == [ev |-> "do", id |-> id, mut |-> Bit(Mut(id)), nomir |-> Bit(conf.req[id].nomir),
-                  ie |-> Bit(conf.req[id].ie), tc |-> now]
+                  ie |-> Bit(conf.req[id].ie), tc |-> now, os |-> Bit(conf.req[id].oneshot)]
 EvSeek(id, off) == [ev |-> "seek", id |-> id, tc |-> now, off |-> off]
 EvRead(id)    == [ev |-> "read", id |-> id, tc |-> now]
 EvRet(id, c, ok) == [ev |-> "ret", id |-> id, call |-> c, ok |-> Bit(ok), eq |-> 1]
@@ -214,13 +229,15 @@ Offered(id, range) ==
 
 NextHost == call.hosts[IF call.ci > Len(call.hosts) THEN 1 ELSE call.ci]
 Blocked == /\ call.kind # "none" /\ call.ph = "next"
-           /\ call.hosts # <<>> /\ rs[call.id].retry <= conf.R
+           /\ call.hosts # <<>> /\ rs[call.id].retry <= conf.R /\ ~rs[call.id].cx
            /\ hs[NextHost].act >= Conc
 
 Attempt ==
   /\ call.kind # "none" /\ call.ph = "next"
   /\ call.hosts # <<>> /\ rs[call.id].retry <= conf.R
+  /\ ~rs[call.id].cx                            \* ctx.Err() at the loop top
   /\ hs[NextHost].act < Conc                    \* h.throttle.Acquire
+  /\ ~(conf.req[call.id].oneshot /\ rs[call.id].bodyused)     \* else BodyFail
   /\ LET id    == call.id
          r     == rs[id]
          ci    == IF call.ci > Len(call.hosts) THEN 1 ELSE call.ci
@@ -254,19 +271,59 @@ Attempt ==
            /\ IF good
               THEN \* success: the body is open; Content-Length fixes readMax on a fresh read
                    /\ rs' = [rs EXCEPT ![id] = [r EXCEPT !.retry = @ + 1, !.mirror = h, !.has = TRUE,
-                                                        !.done = FALSE, !.hasra = FALSE, !.slot = h,
+                                                        !.done = FALSE, !.hasra = FALSE, !.slot = h, !.bodyused = TRUE,
                                                         !.rmax = IF r.rcur = 0 /\ conf.req[id].meth = "GET" THEN N ELSE @,
                                                         !.avail = IF conf.req[id].meth = "GET" THEN deliver ELSE 0,
                                                         !.short = k \in {"short0", "short1", "short206"},
                                                         !.st = IF call.kind = "read" THEN "busy" ELSE "open"]]
                    /\ call' = IF call.kind = "read" THEN [call EXCEPT !.ph = "consume", !.hosts = <<>>, !.ci = 1]
                               ELSE NoCall
-              ELSE /\ rs' = [rs EXCEPT ![id] = [r EXCEPT !.retry = @ + 1, !.mirror = h,
+              ELSE /\ rs' = [rs EXCEPT ![id] = [r EXCEPT !.retry = @ + 1, !.mirror = h, !.bodyused = TRUE,
                                                         !.has = k # "reset", !.hasra = k = "s429ra"]]
                    /\ call' = [call EXCEPT !.err = TRUE,
                                            !.hosts = IF drop THEN DropAt(call.hosts, ci) ELSE @,
                                            !.ci = IF drop \/ retryH THEN ci ELSE ci + 1]
   /\ UNCHANGED <<conf, ns>>
+
+\* an iteration that ends at req.BodyFunc(): the body cannot be produced a second time
+BodyFail ==
+  /\ call.kind # "none" /\ call.ph = "next"
+  /\ call.hosts # <<>> /\ rs[call.id].retry <= conf.R /\ ~rs[call.id].cx
+  /\ hs[NextHost].act < Conc
+  /\ conf.req[call.id].oneshot /\ rs[call.id].bodyused
+  /\ LET id == call.id
+         ci == IF call.ci > Len(call.hosts) THEN 1 ELSE call.ci
+         h  == call.hosts[ci]
+         bg == BackoffGet(hs[h], now)
+         abort == call.err          \* err != nil && errors.Is(loopErr, ErrNotRetryable)
+     IN /\ now' = bg.now
+        /\ hs' = [hs EXCEPT ![h] = IF abort /\ ~RelNR THEN [bg.h EXCEPT !.act = @ + 1] ELSE bg.h]
+        /\ IF abort
+           THEN /\ rs' = [rs EXCEPT ![id].retry = @ + 1, ![id].mirror = h,
+                                    ![id].st = IF call.kind = "do" THEN "failed" ELSE "broken"]
+                /\ call' = NoCall
+                /\ obs' = <<EvRet(id, call.kind, FALSE)>>
+           ELSE /\ rs' = [rs EXCEPT ![id].retry = @ + 1, ![id].mirror = h]
+                /\ call' = [call EXCEPT !.err = TRUE, !.hosts = DropAt(call.hosts, ci), !.ci = ci]
+                /\ obs' = <<>>
+  /\ UNCHANGED <<conf, nf, ns>>
+
+\* the caller cancels the context of a logical request (between two calls)
+Cancel(id) ==
+  /\ call = NoCall /\ rs[id].st = "open" /\ ~rs[id].cx /\ conf.req[id].meth = "GET"
+  /\ rs' = [rs EXCEPT ![id].cx = TRUE]
+  /\ obs' = <<[ev |-> "cancel", id |-> id]>>
+  /\ UNCHANGED <<conf, now, hs, call, nf, ns>>
+
+\* ctx.Err() at the top of the loop: next() returns before it waits for a slot
+CtxExit ==
+  /\ call.kind # "none" /\ call.ph = "next" /\ rs[call.id].cx
+  /\ call.hosts # <<>> /\ rs[call.id].retry <= conf.R
+  /\ rs' = [rs EXCEPT ![call.id].retry = @ + 1, ![call.id].st = "broken",
+                       ![call.id].done = IF call.kind = "read" THEN TRUE ELSE @]
+  /\ call' = NoCall
+  /\ obs' = <<EvRet(call.id, call.kind, FALSE)>>
+  /\ UNCHANGED <<conf, now, hs, nf, ns>>
 
 \* the read reports ok for the do/seek that opened the body; a read call goes on consuming
 \* ------------------------------------------------------------ Resp.Read
@@ -318,10 +375,10 @@ PassRA ==
   /\ obs' = <<[ev |-> "note", what |-> "pass"]>>
   /\ UNCHANGED <<conf, hs, rs, call, nf, ns>>
 
-Next == \/ \E id \in Ids : Do(id) \/ ReadAll(id) \/ Close(id) \/ \E off \in 0..N : Seek(id, off)
-        \/ LoopExit \/ Attempt \/ Consume \/ PassRA
+Next == \/ \E id \in Ids : Do(id) \/ ReadAll(id) \/ Close(id) \/ Cancel(id) \/ \E off \in 0..N : Seek(id, off)
+        \/ LoopExit \/ Attempt \/ BodyFail \/ CtxExit \/ Consume \/ PassRA
 
-Spec == Init /\ [][Next]_vars /\ WF_vars(LoopExit \/ Attempt \/ Consume)
+Spec == Init /\ [][Next]_vars /\ WF_vars(LoopExit \/ Attempt \/ BodyFail \/ CtxExit \/ Consume)
 
 \* ------------------------------------------------- properties of (D) itself
 TypeOK == /\ now \in Nat /\ nf \in 0..MaxFaults /\ ns \in 0..MaxSeeks
@@ -333,5 +390,7 @@ RetryBound == \A i \in Ids : rs[i].retry <= conf.R + 1
 CallsReturn == (call.kind # "none") ~> (call.kind = "none")
 \* O2: Acquire never waits for a slot that only this caller could return
 NoThrottleBlock == ~Blocked
+\* O2: every exit of next() returned the slot of its attempt; only open responses hold one
+SlotsAccounted == \A h \in Hosts : hs[h].act = Cardinality({i \in Ids : rs[i].slot = h})
 Quiet == call = NoCall
 =============================================================================
